@@ -280,6 +280,30 @@ pub fn gen_evwin(t: &mut Tape) -> Scenario {
         },
     };
     let all = g.t.draw(6) == 5;
+    if g.t.draw(5) == 4 && !matches!(kind, WinKind::Tx { .. }) {
+        // the window inside a replay body: every round must start from fresh window managers
+        let s2 = g.unlimited(s);
+        let a = g.attrs[s2].take().unwrap();
+        let spec = LoopSpec {
+            iterate: false,
+            rounds: 2 + g.t.draw(2) as usize,
+            stop_mod: 0,
+            stop_rem: 0,
+            agg: AggFn::Sum,
+            body: vec![Step::Un(0, UnOp::Win(kind, WinAgg::Chain)), Step::Un(1, UnOp::DropTs)],
+            body_out: 2,
+            use_state: false,
+            cond_sleep_us: 0,
+        };
+        g.steps.push(Step::Loop(s2, spec));
+        g.attrs.push(Some(Attr {
+            repl: Repl::One,
+            depth: a.depth,
+            len: 1,
+            keys: 1,
+        }));
+        return g.finish();
+    }
     let w = if all {
         g.un(s, UnOp::WinAll(kind, WinAgg::Members))
     } else {
